@@ -239,7 +239,43 @@ pub fn run_variant(v: Variant, input: &[u8], cfg: u8) -> Result<Summary, String>
             Variant::Slice => {
                 let mut reader = Reader::from_reader(input);
                 apply_cfg(reader.config_mut(), cfg);
-                drive!(input, reader, Some(reader.read_event()), false, true)
+                drive!(input, reader, {
+                    let r = reader.read_event();
+                    if let Ok(Event::Start(e)) = &r {
+                        // the skipping calls are read calls too: on a clone, from every Start event
+                        let name = e.name().as_ref().to_vec();
+                        let len = strip_bom(input).len() as u64;
+                        for text in [false, true] {
+                            let mut c = reader.clone();
+                            let before = cfg_bits(c.config());
+                            let pos0 = c.buffer_position();
+                            if text {
+                                let _ = c.read_text(quick_xml::name::QName(&name));
+                            } else {
+                                let _ = c.read_to_end(quick_xml::name::QName(&name));
+                            }
+                            if cfg_bits(c.config()) != before {
+                                return Err(format!("read_to_end/read_text({:?}) changed the configuration", lossy(&name)));
+                            }
+                            if c.buffer_position() < pos0 || c.buffer_position() > len || c.error_position() > c.buffer_position() {
+                                return Err(format!("after read_to_end/read_text({:?}): buffer_position {} (was {}), error_position {}, input length {}", lossy(&name), c.buffer_position(), pos0, c.error_position(), len));
+                            }
+                            // and the reader stays usable: it reaches Eof
+                            let mut n = 0;
+                            loop {
+                                match c.read_event() {
+                                    Ok(Event::Eof) => break,
+                                    _ => {}
+                                }
+                                n += 1;
+                                if n > 2 * input.len() + 8 {
+                                    return Err(format!("after read_to_end/read_text({:?}) the reader does not reach Eof", lossy(&name)));
+                                }
+                            }
+                        }
+                    }
+                    Some(r)
+                }, false, true)
             }
             Variant::Buf(_) | Variant::BufEofOnce(_) => {
                 let mut reader = Reader::from_reader(Source::new(input, &script));
@@ -258,6 +294,24 @@ pub fn run_variant(v: Variant, input: &[u8], cfg: u8) -> Result<Summary, String>
                 apply_cfg(reader.config_mut(), cfg);
                 drive!(input, reader, {
                     let r = reader.read_resolved_event().map(|(_, e)| e);
+                    if let Ok(Event::Start(e)) = &r {
+                        let name = e.name().as_ref().to_vec();
+                        let mut c = reader.clone();
+                        let _ = c.read_to_end(quick_xml::name::QName(&name));
+                        let _ = c.prefixes().count();
+                        let _ = c.resolve_element(quick_xml::name::QName(b"p:n"));
+                        let mut n = 0;
+                        loop {
+                            match c.read_resolved_event() {
+                                Ok((_, Event::Eof)) => break,
+                                _ => {}
+                            }
+                            n += 1;
+                            if n > 2 * input.len() + 8 {
+                                return Err(format!("after NsReader::read_to_end({:?}) the reader does not reach Eof", lossy(&name)));
+                            }
+                        }
+                    }
                     Some(r)
                 }, true, true)
             }
